@@ -23,10 +23,16 @@ import (
 type recResolver struct {
 	idx   int
 	calls *[]int
+	fail  *bool // when set and true: the upstream is down
 }
+
+var errUpstreamDown = fmt.Errorf("scripted: upstream down")
 
 func (r *recResolver) Resolve(ctx context.Context, q query.Query, buf []byte) (int, resolver.ResolveInfo, error) {
 	*r.calls = append(*r.calls, r.idx)
+	if r.fail != nil && *r.fail {
+		return 0, resolver.ResolveInfo{}, errUpstreamDown
+	}
 	return 1000 + r.idx, resolver.ResolveInfo{}, nil
 }
 
@@ -57,8 +63,9 @@ func runFwd(catch bool, name string, vals []string) (line string, kind string) {
 		fw = append(fw, config.Resolver{Resolver: &recResolver{}})
 	}
 	var calls []int
+	fail := false
 	for i := range fw {
-		fw[i].Resolver = &recResolver{idx: i, calls: &calls}
+		fw[i].Resolver = &recResolver{idx: i, calls: &calls, fail: &fail}
 	}
 	var list []string
 	for _, s := range fw.Strings() {
@@ -90,7 +97,22 @@ func runFwd(catch bool, name string, vals []string) (line string, kind string) {
 	for _, c := range calls {
 		cs = append(cs, strconv.Itoa(c))
 	}
-	return fmt.Sprintf("list=%s get=%s calls=%s ret=%s", joinOrDash(list), get, joinOrDash(cs), ret), kind
+	// the same query with every upstream down: still exactly the chosen upstream, once, and its
+	// error handed back (an internal name must not fail over to the next matching entry)
+	calls, fail = nil, true
+	_, _, ferr := fw.Resolve(context.Background(), query.Query{Name: name}, nil)
+	fret := "ok"
+	if ferr != nil {
+		fret = "err"
+		if strings.HasSuffix(ferr.Error(), "no forwarder defined") {
+			fret = "noforwarder"
+		}
+	}
+	var fcs []string
+	for _, c := range calls {
+		fcs = append(fcs, strconv.Itoa(c))
+	}
+	return fmt.Sprintf("list=%s get=%s calls=%s ret=%s fcalls=%s fret=%s", joinOrDash(list), get, joinOrDash(cs), ret, joinOrDash(fcs), fret), kind
 }
 
 func runFMatch(d, name string) (line string) {
